@@ -541,7 +541,10 @@ fn join_case(reg: Reg, front: Front, rng: &mut Prng, col: &mut Collector) {
         // the last attempt gets an accept so that a data uplink with accept-defined settings follows
         let mut script = Script::silent();
         let last = a + 1 == attempts;
-        let ja = JoinAcceptDesc { join_nonce: rng.below(1 << 24) as u32, net_id: 1, dev_addr: rng.next_u32(), dl_settings: (rng.below(reg.max_rx1_offset() as u64 + 1) as u8) << 4 | reg.rx2_default().1, rx_delay: rng.below(16) as u8, cf_list: None };
+        // (the accept names an RX2 rate of its own two times out of three: any rate every device of the plan
+        // implements for downlinks; it names no RX2 frequency, which stays the regional default)
+        let ja_rx2_dr = if rng.chance(2, 3) { if reg.fixed() { rng.range(8, 14) as u8 } else { rng.below(6) as u8 } } else { reg.rx2_default().1 };
+        let ja = JoinAcceptDesc { join_nonce: rng.below(1 << 24) as u32, net_id: 1, dev_addr: rng.next_u32(), dl_settings: (rng.below(reg.max_rx1_offset() as u64 + 1) as u8) << 4 | ja_rx2_dr, rx_delay: rng.below(16) as u8, cf_list: None };
         if last {
             let w = encode_join_accept(&creds.app_key, &ja);
             if rng.bool() {
